@@ -256,6 +256,7 @@ def check(ctx):
     if not ctx.replay:
         cand = [{"mods": {"file:///w/main.oal": t}, "main": "file:///w/main.oal"} for t in tx[: (9000 if ctx.thorough else 900)]]
         res = progs.compile_many(cand)
+        shown = []
         for c, r in zip(cand, res):
             ctx.cov["evaluations"] += 1
             sp = r.get("span")
@@ -267,6 +268,19 @@ def check(ctx):
                 if not (0 <= s <= e <= total + 1) or not okb:
                     ctx.violation("a diagnostic span does not lie within its module's text on character boundaries", {"text": t}, "within [0, %d]" % (total + 1), sp)
                 ctx.count("diagnostic_" + str(r.get("kind")))
+                if 0 <= s <= e <= total and any(ord(ch) > 127 for ch in t):
+                    shown.append((t, s, e))
+        # ... and as the CLI and the playground show them: the character span of the byte span
+        from . import c16
+        shown = shown[: (3000 if ctx.thorough else 400)]
+        for (t, s, e), cs in zip(shown, c16.charspans(shown)):
+            ctx.cov["evaluations"] += 1
+            raw = t.encode("utf8")
+            want = (len(raw[:s].decode("utf8", "ignore")), len(raw[:e].decode("utf8", "ignore")))
+            if cs != want:
+                ctx.violation("the character span shown for a diagnostic (CharSpan::from) is not the span of its text", {"text": t, "byte_span": [s, e]}, list(want), cs)
+                break
+            ctx.count("diagnostic_char_spans")
     ctx.cov["distinct_nontrivial"] = ctx.cov["distribution"].get("nontrivial", 0)
     ctx.cov["traces_validated_against_impl"] = ctx.cov["evaluations"]
     ctx.cov["rule"] = ("generated valid modules, two mutations of each (deletions, duplications, swaps, insertion of stray Unicode / quotes / brackets / huge numbers), "
